@@ -144,6 +144,8 @@ theorem sameBelow_of_unch (fs fs' : Node) (q : List Name) (hu : Unch fs fs') (hq
 
 /-! ## Effects of the leaf operations -/
 
+@[simp] theorem problem_staged (st : St) (p : Path) (c : String) : (st.problem p c).staged = st.staged := rfl
+
 /-- The operation recorded no problem and left the staging area alone. -/
 def Quiet (st st' : St) : Prop := st'.problems = st.problems ∧ st'.staged = st.staged
 
@@ -572,5 +574,434 @@ theorem findAndMove_eff (env : Env) (htmp : ∀ k l, isTemporaryName (env.tmpNam
           cases hp : fsPut st1.fs parent name sf.toNode replace with
           | none => rw [hp] at h; exact hfail _ h
           | some fs2 => rw [hp] at h; exact hok fs2 hp h
+
+/-! ## Directories: the description of a directory as a record -/
+
+structure DirRep (X : XCtx) (fs : Node) (dirQ : List Name) (path : Path) (cur : Contents) : Prop where
+  isDir : ∃ perm, sget fs dirQ = some (.dir perm)
+  keys : ∀ n ce, lookup n cur = some ce → isTemporaryName n = false
+  kids : ∀ n ce, lookup n cur = some ce → RepAt X fs (dirQ ++ [n]) (path ++ [n]) ce
+  rest : ∀ n, isTemporaryName n = false → lookup n cur = none → UnsyncAt X fs (dirQ ++ [n]) (path ++ [n])
+
+theorem dirRep_of_rep (X : XCtx) (fs : Node) (dirQ : List Name) (path : Path) (cur : Contents)
+    (h : RepAt X fs dirQ path (.mk { kind := .directory } cur)) : DirRep X fs dirQ path cur := by
+  cases h with
+  | dir q p perm cs hq ht hk hu => exact ⟨⟨perm, hq⟩, ht, hk, hu⟩
+
+theorem rep_of_dirRep (X : XCtx) (fs : Node) (dirQ : List Name) (path : Path) (cur : Contents)
+    (h : DirRep X fs dirQ path cur) : RepAt X fs dirQ path (.mk { kind := .directory } cur) := by
+  obtain ⟨⟨perm, hq⟩, ht, hk, hu⟩ := h
+  exact RepAt.dir dirQ path perm cur hq ht hk hu
+
+theorem tempFree_snoc {q : List Name} {n : Name} (hq : TempFree q) (hn : isTemporaryName n = false) :
+    TempFree (q ++ [n]) := by
+  apply tempFree_append hq
+  intro m hm
+  simp only [List.mem_singleton] at hm
+  subst hm; exact hn
+
+theorem not_prefix_snoc_self {α : Type} (a : List α) (x : α) : ¬ (a ++ [x]) <+: a := by
+  intro h
+  have := h.length_le
+  simp at this
+  omega
+
+/-- The effect of a change confined to the child `c` on the description of the directory. -/
+theorem DirRep.frame_child {X : XCtx} {fs fs1 : Node} {dirQ : List Name} {path : Path} {cur : Contents}
+    (h : DirRep X fs dirQ path cur) (hq : TempFree dirQ) (c : Name) (hf : FrameT fs fs1 (dirQ ++ [c])) :
+    (∃ perm, sget fs1 dirQ = some (.dir perm)) ∧
+    (∀ n ce, n ≠ c → lookup n cur = some ce → RepAt X fs1 (dirQ ++ [n]) (path ++ [n]) ce) ∧
+    (∀ n, n ≠ c → isTemporaryName n = false → lookup n cur = none → UnsyncAt X fs1 (dirQ ++ [n]) (path ++ [n])) := by
+  refine ⟨?_, ?_, ?_⟩
+  · obtain ⟨perm, hp⟩ := h.isDir
+    exact ⟨perm, by rw [hf dirQ hq (not_prefix_snoc_self dirQ c)]; exact hp⟩
+  · intro n ce hne hl
+    have hn := h.keys n ce hl
+    apply rep_same X fs fs1 _ _ ce (h.kids n ce hl)
+    apply sameBelow_of_frame fs fs1 (dirQ ++ [c]) (dirQ ++ [n]) hf (tempFree_snoc hq hn)
+    · exact not_prefix_sibling dirQ c n (Ne.symm hne)
+    · exact not_prefix_sibling dirQ n c hne
+  · intro n hne hn hl
+    apply unsync_same X fs fs1 _ _ _ (h.rest n hn hl)
+    exact hf _ (tempFree_snoc hq hn) (not_prefix_sibling dirQ c n (Ne.symm hne))
+
+theorem unsync_of_none (X : XCtx) (fs : Node) (q : List Name) (p : Path) (h : sget fs q = none) : UnsyncAt X fs q p := by
+  unfold UnsyncAt; rw [h]; trivial
+
+/-- The child `c` has been removed. -/
+theorem DirRep.child_removed {X : XCtx} {fs fs1 : Node} {dirQ : List Name} {path : Path} {cur : Contents}
+    (h : DirRep X fs dirQ path cur) (hq : TempFree dirQ) (c : Name) (hf : FrameT fs fs1 (dirQ ++ [c]))
+    (hnone : sget fs1 (dirQ ++ [c]) = none) : DirRep X fs1 dirQ path (erase c cur) := by
+  obtain ⟨h1, h2, h3⟩ := h.frame_child hq c hf
+  refine ⟨h1, ?_, ?_, ?_⟩
+  · intro n ce hl
+    rw [lookup_erase] at hl
+    split at hl
+    · cases hl
+    · exact h.keys n ce hl
+  · intro n ce hl
+    rw [lookup_erase] at hl
+    split at hl
+    · cases hl
+    · rename_i hne
+      exact h2 n ce (Ne.symm hne) hl
+  · intro n hn hl
+    rw [lookup_erase] at hl
+    split at hl
+    · rename_i he; subst he
+      exact unsync_of_none X fs1 _ _ hnone
+    · rename_i hne
+      exact h3 n (Ne.symm hne) hn hl
+
+/-- The child `c` is now described by `ce'`. -/
+theorem DirRep.child_replaced {X : XCtx} {fs fs1 : Node} {dirQ : List Name} {path : Path} {cur : Contents}
+    (h : DirRep X fs dirQ path cur) (hq : TempFree dirQ) (c : Name) (hc : isTemporaryName c = false)
+    (hf : FrameT fs fs1 (dirQ ++ [c])) (ce' : Entry)
+    (hrep : RepAt X fs1 (dirQ ++ [c]) (path ++ [c]) ce') : DirRep X fs1 dirQ path (upsert c ce' cur) := by
+  obtain ⟨h1, h2, h3⟩ := h.frame_child hq c hf
+  refine ⟨h1, ?_, ?_, ?_⟩
+  · intro n ce hl
+    rw [lookup_upsert] at hl
+    split at hl
+    · rename_i he; subst he; exact hc
+    · exact h.keys n ce hl
+  · intro n ce hl
+    rw [lookup_upsert] at hl
+    split at hl
+    · rename_i he; subst he; cases hl; exact hrep
+    · rename_i hne
+      exact h2 n ce (Ne.symm hne) hl
+  · intro n hn hl
+    rw [lookup_upsert] at hl
+    split at hl
+    · cases hl
+    · rename_i hne
+      exact h3 n (Ne.symm hne) hn hl
+
+theorem DirRep.same_fs {X : XCtx} {fs fs1 : Node} {dirQ : List Name} {path : Path} {cur : Contents}
+    (h : DirRep X fs dirQ path cur) (he : fs1 = fs) : DirRep X fs1 dirQ path cur := by subst he; exact h
+
+/-- What `removeDirectory` must guarantee for its content loop (exactness). -/
+def RmX (X : XCtx) (rec : RmRec) : Prop :=
+  ∀ st h n p e, TempFree (h ++ [n]) → e.kind = .directory → RepAt X st.fs (h ++ [n]) p e →
+    FrameT st.fs (rec st h n p e).2.2.fs (h ++ [n]) ∧ (rec st h n p e).2.2.staged = st.staged ∧
+    ((rec st h n p e).1 = true → sget (rec st h n p e).2.2.fs (h ++ [n]) = none) ∧
+    ((rec st h n p e).1 = false → RepAt X (rec st h n p e).2.2.fs (h ++ [n]) p (rec st h n p e).2.1)
+
+theorem kind_dir_props (e : Entry) (cs : Contents) (p : Props) (h : e = .mk p cs) (hk : e.kind = .directory)
+    (X : XCtx) (fs : Node) (q : List Name) (path : Path) (hr : RepAt X fs q path e) :
+    p = { kind := .directory } := by
+  subst h
+  cases hr with
+  | file q pp d perm m i hq => simp [Entry.kind, Entry.props] at hk
+  | symlink q pp t t' hq hl => simp [Entry.kind, Entry.props] at hk
+  | dir q pp perm cs hq ht hkk hu => rfl
+
+theorem removeLoop_exact (X : XCtx) (rec : RmRec) (hrec : RmX X rec) (dirQ : List Name) (path : Path)
+    (hq : TempFree dirQ) (names : List Name) :
+    ∀ (fl : RmFlags) (cur : Contents) (st : St) (visited : List Name),
+      DirRep X st.fs dirQ path cur →
+      ((fl.cancelled = false ∧ fl.failed = false) → ∀ n ∈ visited, lookup n cur = none) →
+      DirRep X (removeLoop X.env rec dirQ path names fl cur st).2.2.fs dirQ path
+        (removeLoop X.env rec dirQ path names fl cur st).2.1 ∧
+      (((removeLoop X.env rec dirQ path names fl cur st).1.cancelled = false ∧
+        (removeLoop X.env rec dirQ path names fl cur st).1.failed = false) →
+        ∀ n ∈ visited ++ names, lookup n (removeLoop X.env rec dirQ path names fl cur st).2.1 = none) ∧
+      FrameT st.fs (removeLoop X.env rec dirQ path names fl cur st).2.2.fs dirQ ∧
+      (removeLoop X.env rec dirQ path names fl cur st).2.2.staged = st.staged := by
+  induction names with
+  | nil =>
+    intro fl cur st visited hI hV
+    simp only [removeLoop, List.append_nil]
+    exact ⟨hI, hV, FrameT.refl _ _, trivial⟩
+  | cons c rest ih =>
+    intro fl cur st visited hI hV
+    have happ : ∀ n, n ∈ visited ++ c :: rest ↔ n ∈ (visited ++ [c]) ++ rest := by intro n; simp
+    unfold removeLoop
+    split
+    · -- cancelled
+      exact ⟨hI, fun hc => by simp at hc, FrameT.refl _ _, by first | rfl | trivial⟩
+    · cases hl : lookup c cur with
+      | none =>
+        simp only
+        have := ih { fl with unknown := true } cur (st.problem (path ++ [c]) "unknown-content") (visited ++ [c]) hI
+          (fun hf n hn => by
+            rcases List.mem_append.mp hn with h | h
+            · exact hV hf n h
+            · simp only [List.mem_singleton] at h; subst h; exact hl)
+        obtain ⟨r1, r2, r3, r4⟩ := this
+        exact ⟨r1, fun hf n hn => r2 hf n ((happ n).mp hn), r3, r4⟩
+      | some entry =>
+        have hcn := hI.keys c entry hl
+        have hrep := hI.kids c entry hl
+        have hqc : TempFree (dirQ ++ [c]) := tempFree_snoc hq hcn
+        -- the continuation after a successful removal of `c`
+        have hsucc : ∀ (fl1 : RmFlags) (st1 : St), fl1 = fl → FrameT st.fs st1.fs (dirQ ++ [c]) →
+            sget st1.fs (dirQ ++ [c]) = none → st1.staged = st.staged →
+            DirRep X (removeLoop X.env rec dirQ path rest fl1 (erase c cur) st1).2.2.fs dirQ path
+              (removeLoop X.env rec dirQ path rest fl1 (erase c cur) st1).2.1 ∧
+            (((removeLoop X.env rec dirQ path rest fl1 (erase c cur) st1).1.cancelled = false ∧
+              (removeLoop X.env rec dirQ path rest fl1 (erase c cur) st1).1.failed = false) →
+              ∀ n ∈ visited ++ c :: rest, lookup n (removeLoop X.env rec dirQ path rest fl1 (erase c cur) st1).2.1 = none) ∧
+            FrameT st.fs (removeLoop X.env rec dirQ path rest fl1 (erase c cur) st1).2.2.fs dirQ ∧
+            (removeLoop X.env rec dirQ path rest fl1 (erase c cur) st1).2.2.staged = st.staged := by
+          intro fl1 st1 hfl hf hnone hst
+          subst hfl
+          have := ih fl1 (erase c cur) st1 (visited ++ [c]) (hI.child_removed hq c hf hnone)
+            (fun hfl n hn => by
+              rw [lookup_erase]
+              split
+              · rfl
+              · rcases List.mem_append.mp hn with h | h
+                · exact hV hfl n h
+                · simp only [List.mem_singleton] at h; subst h; rename_i hne; exact absurd rfl hne)
+          obtain ⟨r1, r2, r3, r4⟩ := this
+          exact ⟨r1, fun hf' n hn => r2 hf' n ((happ n).mp hn),
+            FrameT.trans (hf.weaken (List.prefix_append dirQ [c])) r3, by rw [r4, hst]⟩
+        -- the continuation after a failure that left the tree alone
+        have hfail : ∀ (st1 : St), st1.fs = st.fs → st1.staged = st.staged →
+            DirRep X (removeLoop X.env rec dirQ path rest { fl with failed := true } cur st1).2.2.fs dirQ path
+              (removeLoop X.env rec dirQ path rest { fl with failed := true } cur st1).2.1 ∧
+            (((removeLoop X.env rec dirQ path rest { fl with failed := true } cur st1).1.cancelled = false ∧
+              (removeLoop X.env rec dirQ path rest { fl with failed := true } cur st1).1.failed = false) →
+              ∀ n ∈ visited ++ c :: rest,
+                lookup n (removeLoop X.env rec dirQ path rest { fl with failed := true } cur st1).2.1 = none) ∧
+            FrameT st.fs (removeLoop X.env rec dirQ path rest { fl with failed := true } cur st1).2.2.fs dirQ ∧
+            (removeLoop X.env rec dirQ path rest { fl with failed := true } cur st1).2.2.staged = st.staged := by
+          intro st1 hfs hst
+          have := ih { fl with failed := true } cur st1 (visited ++ [c]) (hI.same_fs hfs)
+            (fun hfl => by simp at hfl)
+          obtain ⟨r1, r2, r3, r4⟩ := this
+          exact ⟨r1, fun hf' n hn => r2 hf' n ((happ n).mp hn), by rw [← hfs]; exact r3, by rw [r4, hst]⟩
+        simp only
+        split
+        · -- directory
+          rename_i hk
+          have hkd : entry.kind = .directory := by simpa using hk
+          have hr := hrec st dirQ c (path ++ [c]) entry hqc hkd hrep
+          rcases hrc : rec st dirQ c (path ++ [c]) entry with ⟨ok, entry', st1⟩
+          rw [hrc] at hr
+          simp only at hr
+          obtain ⟨hf, hst, hok, hno⟩ := hr
+          cases ok with
+          | true => exact hsucc fl st1 rfl hf (hok rfl) hst
+          | false =>
+            simp only
+            have := ih { fl with failed := true } (upsert c entry' cur) st1 (visited ++ [c])
+              (hI.child_replaced hq c hcn hf entry' (hno rfl)) (fun hfl => by simp at hfl)
+            obtain ⟨r1, r2, r3, r4⟩ := this
+            exact ⟨r1, fun hf' n hn => r2 hf' n ((happ n).mp hn),
+              FrameT.trans (hf.weaken (List.prefix_append dirQ [c])) r3, by rw [r4, hst]⟩
+        · split
+          · -- file
+            rcases hrf : removeFile X.env st dirQ c (path ++ [c]) entry with ⟨r, st1⟩
+            obtain ⟨hqt, heff⟩ := removeFile_eff X.env st dirQ c (path ++ [c]) entry r st1 hrf
+            rcases heff with ⟨hr, hu⟩ | ⟨hr, hfs⟩
+            · subst hr
+              obtain ⟨_, hnone, hfr⟩ := fsUnlink_spec _ _ _ _ hu
+              exact hsucc fl st1 rfl (FrameT.of_frame hfr) (by simp [sget, hnone]) hqt.2
+            · cases r with
+              | none => exact absurd rfl hr
+              | some e => exact hfail _ (by simpa using hfs) (by simpa using hqt.2)
+          · split
+            · -- symbolic link
+              rcases hrf : removeSymbolicLink X.env st dirQ c (path ++ [c]) entry with ⟨r, st1⟩
+              obtain ⟨hqt, heff⟩ := removeSymbolicLink_eff X.env st dirQ c (path ++ [c]) entry r st1 hrf
+              rcases heff with ⟨hr, hu⟩ | ⟨hr, hfs⟩
+              · subst hr
+                obtain ⟨_, hnone, hfr⟩ := fsUnlink_spec _ _ _ _ hu
+                exact hsucc fl st1 rfl (FrameT.of_frame hfr) (by simp [sget, hnone]) hqt.2
+              · cases r with
+                | none => exact absurd rfl hr
+                | some e => exact hfail _ (by simpa using hfs) (by simpa using hqt.2)
+            · exact hfail _ rfl rfl
+
+/-- The content loop never invents expected entries: whatever the result map
+holds was in the map before or belongs to a name of the listing. -/
+theorem removeLoop_keys (env : Env) (rec : RmRec) (dirH : Handle) (path : Path) (names : List Name) :
+    ∀ (fl : RmFlags) (cur : Contents) (st : St) (n : Name),
+      lookup n (removeLoop env rec dirH path names fl cur st).2.1 ≠ none → lookup n cur ≠ none ∨ n ∈ names := by
+  induction names with
+  | nil => intro fl cur st n h; left; simpa [removeLoop] using h
+  | cons c rest ih =>
+    intro fl cur st n h
+    unfold removeLoop at h
+    have hstep : ∀ fl1 cur1 st1, (∀ m, lookup m cur1 ≠ none → lookup m cur ≠ none ∨ m = c) →
+        lookup n (removeLoop env rec dirH path rest fl1 cur1 st1).2.1 ≠ none →
+        lookup n cur ≠ none ∨ n ∈ c :: rest := by
+      intro fl1 cur1 st1 hsub hn
+      rcases ih fl1 cur1 st1 n hn with h1 | h1
+      · rcases hsub n h1 with h2 | h2
+        · exact Or.inl h2
+        · exact Or.inr (by simp [h2])
+      · exact Or.inr (by simp [h1])
+    have hsame : ∀ m, lookup m cur ≠ none → lookup m cur ≠ none ∨ m = c := fun m hm => Or.inl hm
+    have herase : ∀ m, lookup m (erase c cur) ≠ none → lookup m cur ≠ none ∨ m = c := by
+      intro m hm; rw [lookup_erase] at hm; split at hm
+      · exact absurd rfl hm
+      · exact Or.inl hm
+    have hupsert : ∀ e', ∀ m, lookup m (upsert c e' cur) ≠ none → lookup m cur ≠ none ∨ m = c := by
+      intro e' m hm; rw [lookup_upsert] at hm; split at hm
+      · rename_i he; exact Or.inr he.symm
+      · exact Or.inl hm
+    split at h
+    · exact Or.inl h
+    · cases hl : lookup c cur with
+      | none => rw [hl] at h; exact hstep _ _ _ hsame h
+      | some entry =>
+        rw [hl] at h
+        simp only at h
+        split at h
+        · rcases hrc : rec st dirH c (path ++ [c]) entry with ⟨ok, entry', st1⟩
+          rw [hrc] at h
+          cases ok with
+          | true => exact hstep _ _ _ herase h
+          | false => exact hstep _ _ _ (hupsert entry') h
+        · split at h
+          · rcases hrf : removeFile env st dirH c (path ++ [c]) entry with ⟨r, st1⟩
+            rw [hrf] at h
+            cases r with
+            | none => exact hstep _ _ _ herase h
+            | some e => exact hstep _ _ _ hsame h
+          · split at h
+            · rcases hrf : removeSymbolicLink env st dirH c (path ++ [c]) entry with ⟨r, st1⟩
+              rw [hrf] at h
+              cases r with
+              | none => exact hstep _ _ _ herase h
+              | some e => exact hstep _ _ _ hsame h
+            · exact hstep _ _ _ hsame h
+
+theorem rep_nonempty (X : XCtx) (fs : Node) (q : List Name) (p : Path) (e : Entry) (h : RepAt X fs q p e) :
+    sget fs q ≠ none := by
+  cases h <;> simp_all
+
+theorem mem_keys_of_child (fs : Node) (q : List Name) (cs : Kids) (n : Name) (hd : dirAt fs q = some cs)
+    (hn : sget fs (q ++ [n]) ≠ none) : n ∈ akeys cs := by
+  obtain ⟨p, hp⟩ := (dirAt_eq fs q cs).mp hd
+  rw [sget, get_child fs q p cs hp] at hn
+  apply (aget_isSome_iff_mem_keys n cs).mp
+  cases h : aget n cs with
+  | none => simp [h] at hn
+  | some v => rfl
+
+/-- Sibling orders that visit every name (every permutation does). -/
+def OrdComplete (env : Env) : Prop := ∀ l n, n ∈ l → n ∈ env.ord l
+
+theorem removeDirectory_exact (X : XCtx) (hord : OrdComplete X.env) (fuel : Nat) :
+    RmX X (removeDirectory X.env fuel) := by
+  induction fuel with
+  | zero =>
+    intro st h n p e _ _ hrep
+    simp only [removeDirectory]
+    exact ⟨FrameT.refl _ _, rfl, fun hc => (by cases hc), fun _ => hrep⟩
+  | succ fuel ih =>
+    intro st parent name path expected hq hkind hrep
+    have hprops : expected.props = { kind := .directory } := by
+      cases expected with
+      | mk props cs => exact kind_dir_props _ cs props rfl hkind X st.fs _ path hrep
+    have hexp : expected = Entry.mk { kind := .directory } expected.children := by
+      cases expected with
+      | mk props cs => simp only [Entry.props] at hprops; subst hprops; rfl
+    have hI0 := dirRep_of_rep X st.fs _ path expected.children (hexp ▸ hrep)
+    generalize hcs : expected.children = cs at hI0
+    unfold removeDirectory
+    rw [hprops, hcs]
+    rcases hh : hook X.env st .opendir name with ⟨a, st1⟩
+    have h1 : st1.fs = st.fs := by have := hook_fs X.env st .opendir name; rw [hh] at this; exact this
+    have hs1 : st1.staged = st.staged := by have := hook_staged X.env st .opendir name; rw [hh] at this; exact this
+    simp only
+    -- a refusal that leaves everything as it is
+    have hrefuse : ∀ (st' : St) (cls : String), st'.fs = st.fs → st'.staged = st.staged →
+        FrameT st.fs (st'.problem path cls).fs (parent ++ [name]) ∧ (st'.problem path cls).staged = st.staged ∧
+        (false = true → sget (st'.problem path cls).fs (parent ++ [name]) = none) ∧
+        (false = false → RepAt X (st'.problem path cls).fs (parent ++ [name]) path expected) := by
+      intro st' cls hfs hst
+      refine ⟨by simp [hfs, FrameT.refl], by simpa using hst, fun hc => (by cases hc), fun _ => ?_⟩
+      simp only [problem_fs, hfs]; exact hrep
+    split
+    · exact hrefuse st1 _ h1 hs1
+    · cases hda : dirAt st1.fs (parent ++ [name]) with
+      | none => exact hrefuse st1 _ h1 hs1
+      | some cs0 =>
+        simp only
+        rcases hh2 : hook X.env st1 .readdir "" with ⟨a2, st2⟩
+        have h2 : st2.fs = st.fs := by
+          have := hook_fs X.env st1 .readdir ""; rw [hh2] at this; rw [this]; exact h1
+        have hs2 : st2.staged = st.staged := by
+          have := hook_staged X.env st1 .readdir ""; rw [hh2] at this; rw [this]; exact hs1
+        simp only
+        split
+        · exact hrefuse st2 _ h2 hs2
+        · cases hdb : dirAt st2.fs (parent ++ [name]) with
+          | none => exact hrefuse st2 _ h2 hs2
+          | some csd =>
+            simp only
+            have hI2 : DirRep X st2.fs (parent ++ [name]) path cs := hI0.same_fs h2
+            have hloop := removeLoop_exact X (removeDirectory X.env fuel) ih (parent ++ [name]) path hq
+              (X.env.ord (akeys csd)) {} cs st2 [] hI2 (fun _ n hn => by cases hn)
+            have hkeys := removeLoop_keys X.env (removeDirectory X.env fuel) (parent ++ [name]) path
+              (X.env.ord (akeys csd)) {} cs st2
+            rcases hrl : removeLoop X.env (removeDirectory X.env fuel) (parent ++ [name]) path
+              (X.env.ord (akeys csd)) {} cs st2 with ⟨fl, cur, st3⟩
+            rw [hrl] at hloop hkeys
+            simp only [List.nil_append] at hloop hkeys
+            obtain ⟨hI3, hV3, hF3, hS3⟩ := hloop
+            -- every name the expected map knows is in the listing
+            have hlisted : ∀ n, lookup n cs ≠ none → n ∈ X.env.ord (akeys csd) := by
+              intro n hn
+              cases hl : lookup n cs with
+              | none => exact absurd hl hn
+              | some ce =>
+                apply hord
+                exact mem_keys_of_child st2.fs _ csd n hdb (rep_nonempty X _ _ _ ce (hI2.kids n ce hl))
+            -- with no failure and no cancellation the remaining map is empty
+            have hempty : fl.cancelled = false ∧ fl.failed = false → ∀ n, lookup n cur = none := by
+              intro hfl n
+              cases hl : lookup n cur with
+              | none => rfl
+              | some ce =>
+                have hmem : n ∈ X.env.ord (akeys csd) := by
+                  rcases hkeys n (by rw [hl]; simp) with h | h
+                  · exact hlisted n h
+                  · exact h
+                have := hV3 hfl n hmem
+                rw [hl] at this; cases this
+            have hI3' : DirRep X st3.fs (parent ++ [name]) path (if (!fl.cancelled && !fl.failed) = true then [] else cur) := by
+              split
+              · rename_i hc
+                have hfl : fl.cancelled = false ∧ fl.failed = false := by
+                  simp only [Bool.and_eq_true, Bool.not_eq_true'] at hc; exact hc
+                refine ⟨hI3.isDir, fun n ce hl => (by cases hl), fun n ce hl => (by cases hl), ?_⟩
+                intro n hn _
+                exact hI3.rest n hn (hempty hfl n)
+              · exact hI3
+            have hF : FrameT st.fs st3.fs (parent ++ [name]) := by rw [← h2]; exact hF3
+            have hS : st3.staged = st.staged := by rw [hS3]; exact hs2
+            split
+            · rcases hh3 : hook X.env st3 .rmdir name with ⟨a3, st4⟩
+              have h4 : st4.fs = st3.fs := by have := hook_fs X.env st3 .rmdir name; rw [hh3] at this; exact this
+              have hs4 : st4.staged = st3.staged := by
+                have := hook_staged X.env st3 .rmdir name; rw [hh3] at this; exact this
+              simp only
+              have hfailed : ∀ cls, FrameT st.fs (st4.problem path cls).fs (parent ++ [name]) ∧
+                  (st4.problem path cls).staged = st.staged ∧
+                  (false = true → sget (st4.problem path cls).fs (parent ++ [name]) = none) ∧
+                  (false = false → RepAt X (st4.problem path cls).fs (parent ++ [name]) path
+                    (Entry.mk { kind := .directory } (if (!fl.cancelled && !fl.failed) = true then [] else cur))) := by
+                intro cls
+                refine ⟨by simp only [problem_fs, h4]; exact hF, by simp [hs4, hS], fun hc => (by cases hc), fun _ => ?_⟩
+                simp only [problem_fs, h4]
+                exact rep_of_dirRep X _ _ _ _ hI3'
+              split
+              · exact hfailed _
+              · cases hrm : fsRmdir st4.fs parent name with
+                | none => exact hfailed _
+                | some fs' =>
+                  simp only
+                  obtain ⟨_, hnone, hfr⟩ := fsRmdir_spec st4.fs fs' parent name hrm
+                  refine ⟨?_, by simp [hs4, hS], fun _ => by simp [sget, hnone], fun hc => (by cases hc)⟩
+                  rw [h4] at hfr
+                  exact FrameT.trans hF (FrameT.of_frame hfr)
+            · exact ⟨hF, hS, fun hc => (by cases hc), fun _ => rep_of_dirRep X _ _ _ _ hI3'⟩
 
 end Mutagen.Proofs.FS
